@@ -1,6 +1,33 @@
-import Mutagen.Model.Mux
+import Mutagen.Proofs.MuxNet
 /-!
 # C24 — conforming multiplexers never tear each other down
+
+`Net` (Model/Mux.lean) is the pair of multiplexers with one FIFO of wire
+messages per direction; `Action` (Model/MuxSys.lean) is every atomic step the
+program, the background goroutines and the carrier can take: the critical
+sections of OpenStream, AcceptStream (including stale and aborted accepts),
+Read with any buffer size (including 0), Write (including empty and chunked),
+CloseWrite, Close (split at its blocking points), deadlines, the flushes of the
+enqueue goroutine in any order, the delivery of one message to a reader
+(`Side.deliver`: the validation of `Multiplexer.read`, check by check) and
+`Multiplexer.Close`.
+
+The model describes the code with `fixes/C24.patch` applied (see the header of
+Model/Mux.lean); the unrepaired code violates `no_protocol_violation`
+(zero-length `Read` ⇒ zero-valued window increment; concurrent `OpenStream` ⇒
+open messages out of identifier order).
+
+Invariant (`Inv`, Proofs/MuxInv.lean), per stream identifier and direction:
+* window accounting — in-flight data + buffered data + pending and in-flight
+  window increments + sender window ≤ receive window ≤ 2^64-1 (`Flow.window`;
+  equality is not inductive: a local close discards pending credit);
+* every in-flight or pending increment is positive (`Flow.incr_pos/pend_pos`);
+* nothing behind a close, no data behind a close-write, at most one of each
+  (`Flow.close_last/cw_data/cw_once`);
+* open first, accept (or a lone close) first in the other direction, accept at
+  most once and never after a close (`Unseen.first`, `PerId.o_first/acc_once`);
+* open identifiers strictly increasing, of the sender's parity, below the
+  sender's next identifier and above the receiver's high-water mark (`Dir`).
 -/
 namespace Mutagen.Properties.C24
 open Mutagen.Model.Mux
@@ -12,5 +39,229 @@ theorem frame_roundtrip (m : Msg) : m.toFrame.toMsg = some m := by
   cases m <;> simp [Msg.toFrame, Frame.toMsg, Kind.ofWire, Kind.wire, Mutagen.Facts.muxKindClose,
     Mutagen.Facts.muxKindHeartbeat, Mutagen.Facts.muxKindOpen, Mutagen.Facts.muxKindAccept,
     Mutagen.Facts.muxKindData, Mutagen.Facts.muxKindWindowIncrement, Mutagen.Facts.muxKindCloseWrite]
+
+/-- The invariant holds initially (receive windows are Go `int`s, hence < 2^64). -/
+theorem invariant_initially (wa ka wb kb : Int) (ha : wa ≤ maxU64) (hb : wb ≤ maxU64) :
+    InvN (Net.init wa ka wb kb) :=
+  InvN.init wa ka wb kb ha hb
+
+/-- The invariant is preserved by every action that leaves both multiplexers up. -/
+theorem invariant_preserved (n : Net) (h : InvN n) (hal : n.alive) (a : Action) (hal' : (n.step a).alive) :
+    InvN (n.step a) :=
+  h.step hal a hal'
+
+/-- The invariant implies that the reader accepts the next in-flight message,
+whatever it is. -/
+theorem invariant_implies_accept (n : Net) (h : InvN n) (hal : n.alive) (w : Who) :
+    (n.deliver w).2 = none :=
+  h.deliver_ok hal w
+
+/-- Both multiplexers closed. -/
+def dead (n : Net) : Prop := n.a.closedMux = true ∧ n.b.closedMux = true
+
+/-- Either both are up and the invariant holds (no internal error recorded), or
+both are closed, and then the only errors ever recorded are "the carrier / the
+peer went away". -/
+def Good (n : Net) : Prop :=
+  (n.alive ∧ InvN n ∧ n.a.internalErr = none ∧ n.b.internalErr = none) ∨
+  (dead n ∧ (n.a.internalErr = none ∨ n.a.internalErr = some .carrier) ∧
+    (n.b.internalErr = none ∨ n.b.internalErr = some .carrier))
+
+theorem good_step (n : Net) (hg : Good n) (a : Action) : Good (n.step a) := by
+  rcases hg with ⟨hal, hi, hea, heb⟩ | ⟨hd, hea, heb⟩
+  · cases a with
+    | act w s =>
+      have hal' : (n.step (.act w s)).alive := by
+        cases w
+        · have := act_meta n.a s
+          simpa [Net.step, Net.side, Net.setSide, Net.send, Net.alive, this.closedMux] using hal
+        · have := act_meta n.b s
+          simpa [Net.step, Net.side, Net.setSide, Net.send, Net.alive, this.closedMux] using hal
+      refine Or.inl ⟨hal', hi.step hal _ hal', ?_, ?_⟩
+      · cases w
+        · have := act_meta n.a s
+          simpa [Net.step, Net.side, Net.setSide, Net.send, this.internalErr] using hea
+        · simpa [Net.step, Net.side, Net.setSide, Net.send] using hea
+      · cases w
+        · simpa [Net.step, Net.side, Net.setSide, Net.send] using heb
+        · have := act_meta n.b s
+          simpa [Net.step, Net.side, Net.setSide, Net.send, this.internalErr] using heb
+    | deliver w =>
+      have hok := hi.deliver_ok hal w
+      cases w with
+      | a =>
+        simp only [Net.step, Net.deliver, Net.inbox] at hok ⊢
+        cases hba : n.ba with
+        | nil => exact Or.inl (by simpa [hba] using ⟨hal, hi, hea, heb⟩)
+        | cons m rest =>
+          simp only [hba, Net.setInbox, Net.side, hal.1, Bool.false_eq_true, ↓reduceIte] at hok ⊢
+          cases hdl : n.a.deliver m with
+          | error e => simp [hdl] at hok
+          | ok a' =>
+            have hf := deliver_fields hdl hal.1
+            have hal' : Net.alive { n with ba := rest, a := a' } := ⟨by rw [hf.2.2.2.1]; exact hal.1, hal.2⟩
+            refine Or.inl ?_
+            simp only [hdl, Net.setSide]
+            exact ⟨hal', hi.deliver_a hal m rest hba a' hdl, by rw [hf.2.2.2.2.1]; exact hea, heb⟩
+      | b =>
+        simp only [Net.step, Net.deliver, Net.inbox] at hok ⊢
+        cases hab : n.ab with
+        | nil => exact Or.inl (by simpa [hab] using ⟨hal, hi, hea, heb⟩)
+        | cons m rest =>
+          simp only [hab, Net.setInbox, Net.side, hal.2, Bool.false_eq_true, ↓reduceIte] at hok ⊢
+          cases hdl : n.b.deliver m with
+          | error e => simp [hdl] at hok
+          | ok b' =>
+            have hf := deliver_fields hdl hal.2
+            have hal' : Net.alive { n with ab := rest, b := b' } := ⟨hal.1, by rw [hf.2.2.2.1]; exact hal.2⟩
+            refine Or.inl ?_
+            simp only [hdl, Net.setSide]
+            exact ⟨hal', hi.deliver_b hal m rest hab b' hdl, hea, by rw [hf.2.2.2.2.1]; exact heb⟩
+    | muxClose w =>
+      refine Or.inr ?_
+      cases w <;>
+        simp [Net.step, Net.fail, Net.side, Net.setSide, Who.peer, dead, hal.1, hal.2, hea, heb]
+  · refine Or.inr ?_
+    cases a with
+    | act w s =>
+      cases w
+      · have := act_meta n.a s
+        simpa [Net.step, Net.side, Net.setSide, Net.send, dead, this.closedMux, this.internalErr]
+          using ⟨hd, hea, heb⟩
+      · have := act_meta n.b s
+        simpa [Net.step, Net.side, Net.setSide, Net.send, dead, this.closedMux, this.internalErr]
+          using ⟨hd, hea, heb⟩
+    | deliver w =>
+      cases w with
+      | a =>
+        simp only [Net.step, Net.deliver, Net.inbox]
+        cases hba : n.ba with
+        | nil => exact ⟨hd, hea, heb⟩
+        | cons m rest =>
+          simp only [Net.setInbox, Net.side, hd.1, ↓reduceIte]
+          exact ⟨hd, hea, heb⟩
+      | b =>
+        simp only [Net.step, Net.deliver, Net.inbox]
+        cases hab : n.ab with
+        | nil => exact ⟨hd, hea, heb⟩
+        | cons m rest =>
+          simp only [Net.setInbox, Net.side, hd.2, ↓reduceIte]
+          exact ⟨hd, hea, heb⟩
+    | muxClose w =>
+      have hd1 := hd.1
+      have hd2 := hd.2
+      cases w <;> simp [Net.step, Net.fail, Net.side, Net.setSide, Who.peer, dead, hd1, hd2, hea, heb]
+
+theorem good_run (n : Net) (hg : Good n) (acts : List Action) : Good (n.run acts) := by
+  induction acts generalizing n with
+  | nil => exact hg
+  | cons a as ih => exact ih _ (good_step n hg a)
+
+theorem good_init (wa ka wb kb : Int) (ha : wa ≤ maxU64) (hb : wb ≤ maxU64) :
+    Good (Net.init wa ka wb kb) :=
+  Or.inl ⟨⟨rfl, rfl⟩, InvN.init wa ka wb kb ha hb, rfl, rfl⟩
+
+/-- **C24.** For every sequence of API actions on both sides (open, accept incl.
+stale/aborted, read with any buffer size incl. 0, write incl. empty, close-write,
+close, deadlines, rejected opens), every order of transmission of the pending
+increments / close-writes / closes and every delivery interleaving, the
+receiver-side validation never rejects a delivered message. -/
+theorem no_protocol_violation (wa ka wb kb : Int) (ha : wa ≤ maxU64) (hb : wb ≤ maxU64)
+    (acts : List Action) (w : Who) :
+    (((Net.init wa ka wb kb).run acts).deliver w).2 = none := by
+  rcases good_run _ (good_init wa ka wb kb ha hb) acts with ⟨hal, hi, _, _⟩ | ⟨hd, _, _⟩
+  · exact hi.deliver_ok hal w
+  · cases w with
+    | a =>
+      simp only [Net.deliver, Net.inbox]
+      cases hba : ((Net.init wa ka wb kb).run acts).ba with
+      | nil => rfl
+      | cons m rest => simp [Net.setInbox, Net.side, hd.1]
+    | b =>
+      simp only [Net.deliver, Net.inbox]
+      cases hab : ((Net.init wa ka wb kb).run acts).ab with
+      | nil => rfl
+      | cons m rest => simp [Net.setInbox, Net.side, hd.2]
+
+/-- **C24 (observable form).** The connection stays up until one side is
+closed explicitly, and the only internal error either multiplexer ever records
+is the loss of the carrier/peer — never a protocol violation. -/
+theorem never_torn_down (wa ka wb kb : Int) (ha : wa ≤ maxU64) (hb : wb ≤ maxU64) (acts : List Action) :
+    let n := (Net.init wa ka wb kb).run acts
+    (n.a.internalErr = none ∨ n.a.internalErr = some .carrier) ∧
+    (n.b.internalErr = none ∨ n.b.internalErr = some .carrier) ∧
+    ((∀ a ∈ acts, ∀ w, a ≠ .muxClose w) → n.alive) := by
+  intro n
+  have hg := good_run _ (good_init wa ka wb kb ha hb) acts
+  refine ⟨?_, ?_, ?_⟩
+  · rcases hg with ⟨_, _, h, _⟩ | ⟨_, h, _⟩
+    · exact Or.inl h
+    · exact h
+  · rcases hg with ⟨_, _, _, h⟩ | ⟨_, _, h⟩
+    · exact Or.inl h
+    · exact h
+  · intro hno
+    -- without an explicit close the system stays alive
+    have key : ∀ (acts : List Action) (n0 : Net), Good n0 → n0.alive →
+        (∀ a ∈ acts, ∀ w, a ≠ .muxClose w) → (n0.run acts).alive := by
+      intro acts
+      induction acts with
+      | nil => intro n0 _ hal _; exact hal
+      | cons a as ih =>
+        intro n0 hg0 hal0 hno0
+        have hg1 := good_step n0 hg0 a
+        have hal1 : (n0.step a).alive := by
+          rcases hg0 with ⟨_, hi, _, _⟩ | ⟨hd0, _, _⟩
+          · cases a with
+            | act w s =>
+              cases w
+              · have := act_meta n0.a s
+                simpa [Net.step, Net.side, Net.setSide, Net.send, Net.alive, this.closedMux] using hal0
+              · have := act_meta n0.b s
+                simpa [Net.step, Net.side, Net.setSide, Net.send, Net.alive, this.closedMux] using hal0
+            | deliver w =>
+              rcases hg1 with ⟨h1, _⟩ | ⟨hd1, _, _⟩
+              · exact h1
+              · -- a delivery never closes a multiplexer: it would have to reject
+                exfalso
+                have hok := hi.deliver_ok hal0 w
+                cases w with
+                | a =>
+                  simp only [Net.step, Net.deliver, Net.inbox] at hok hd1
+                  cases hba : n0.ba with
+                  | nil => simp [hba, dead, hal0.1] at hd1
+                  | cons m rest =>
+                    simp only [hba, Net.setInbox, Net.side, hal0.1, Bool.false_eq_true, ↓reduceIte] at hok hd1
+                    cases hdl : n0.a.deliver m with
+                    | error e => simp [hdl] at hok
+                    | ok a' =>
+                      have hf := deliver_fields hdl hal0.1
+                      simp [hdl, Net.setSide, dead, hf.2.2.2.1, hal0.1] at hd1
+                | b =>
+                  simp only [Net.step, Net.deliver, Net.inbox] at hok hd1
+                  cases hab : n0.ab with
+                  | nil => simp [hab, dead, hal0.1] at hd1
+                  | cons m rest =>
+                    simp only [hab, Net.setInbox, Net.side, hal0.2, Bool.false_eq_true, ↓reduceIte] at hok hd1
+                    cases hdl : n0.b.deliver m with
+                    | error e => simp [hdl] at hok
+                    | ok b' =>
+                      have hf := deliver_fields hdl hal0.2
+                      simp [hdl, Net.setSide, dead, hf.2.2.2.1, hal0.1, hal0.2] at hd1
+            | muxClose w => exact absurd rfl (hno0 _ List.mem_cons_self w)
+          · exact absurd hd0.1 (by simp [hal0.1])
+        exact ih _ hg1 hal1 (fun a' ha' => hno0 a' (List.mem_cons_of_mem _ ha'))
+    exact key acts _ (good_init wa ka wb kb ha hb) ⟨rfl, rfl⟩ hno
+
+/-- Non-vacuity: a concrete run that exercises open, accept, data, a
+zero-length read with data buffered, a real read, the increment and its
+delivery; all deliveries are accepted and the data arrives. -/
+example :
+    let n := (Net.init 8 2 8 2).run
+      [.act .a .openStream, .deliver .b, .act .b (.accept false), .deliver .a,
+       .act .a (.writeChunk 1 [1, 2, 3]), .deliver .b, .act .b (.read 1 0 0), .act .b (.flushIncr 1),
+       .act .b (.read 1 2 0), .act .b (.flushIncr 1), .deliver .a]
+    n.alive ∧ (n.b.streams 1).map (·.got) = some [1, 2] ∧ (n.a.streams 1).map (·.sendWindow) = some 7 := by
+  refine ⟨⟨rfl, rfl⟩, rfl, rfl⟩
 
 end Mutagen.Properties.C24
